@@ -267,7 +267,11 @@ func H_C20_record() {
 	vAssert(IsDuplicate(rr, c), "ttl-ignored")
 	rr2, _, err := UnpackRR(w, 0)
 	vAssume(err == nil)
-	vAssert(IsDuplicate(rr, rr2) && IsDuplicate(rr2, rr), "wire-twin-is-duplicate")
+	if !g.esc {
+		// (a hand-built record that spells an octet as \\DDD where the library writes it raw is not covered by the property)
+		vAssert(IsDuplicate(rr, rr2) && IsDuplicate(rr2, rr), "wire-twin-is-duplicate")
+	}
+	vAssert(IsDuplicate(rr2, Copy(rr2)), "wire-record-duplicate-of-its-copy")
 	// a second record of the same type and shape with independent contents:
 	// duplicate iff the wire forms agree apart from TTL and the case of letters inside names
 	// same values except (at most) one mutated draw
@@ -276,8 +280,14 @@ func H_C20_record() {
 	eq := vWireEqualFold(w, w2, g)
 	got := IsDuplicate(rr, other)
 	vObserve("dup", t, got)
-	vAssert(got == eq, "duplicate-iff-canonical-wire-equal")
+	if !g.esc {
+		vAssert(got == eq, "duplicate-iff-canonical-wire-equal")
+	}
 	vAssert(IsDuplicate(other, rr) == got, "symmetric-2")
+	// the same for the records as they come from the wire (names in the library's own spelling)
+	o2, _, err2 := UnpackRR(w2, 0)
+	vAssume(err2 == nil)
+	vAssert(IsDuplicate(rr2, o2) == eq, "wire-records-duplicate-iff-canonical-wire-equal")
 }
 
 // vWireEqualFold compares two reference wire records of the same shape ignoring the TTL and folding
@@ -351,6 +361,16 @@ func H_C20_dedup() {
 			rrs[i] = &TXT{Hdr: RR_Header{Name: owner, Rrtype: TypeTXT, Class: ClassINET, Ttl: ttls[i]}, Txt: []string{"x"}}
 		}
 		kinds[i] = k
+		// a list may also hold the very same record value twice
+		if vChoice("same"+vItoa(i), 2) == 1 {
+			for j := 0; j < i; j++ {
+				if kinds[j] == k {
+					rrs[i] = rrs[j]
+					ttls[i] = ttls[j]
+					break
+				}
+			}
+		}
 	}
 	in := append([]RR(nil), rrs...)
 	out := Dedup(in, nil)
